@@ -17,7 +17,7 @@ EXTENDS Scenarios
 
 TargetKinds == {"local", "aux1", "aux2", "aux3", "trans", "selfrec", "mutual", "arrayself", "mapself",
                 "auxarrayself", "anonprop", "anonitems", "anonallof", "anonsibling", "sharedparam", "sharedresp", "diamond",
-                "uptrans", "crosstrans", "recdep", "recmap", "anonimport", "auxcase", "anoncase", "auxempty"}
+                "uptrans", "crosstrans", "recdep", "recmap", "anonimport", "auxcase", "anoncase", "auxempty", "anonbackup"}
 Shapes      == {"prim", "object", "arrayref", "tuple", "allof", "map", "nested", "ptrarray", "ref", "additemsref", "nestedfree"}
 HolderKinds == {"prop", "items", "tuple", "addprops", "additems", "allof", "alias", "opbody", "pathbody",
                 "code", "default", "sharedparam", "sharedresp", "nested", "opnested", "opitems",
@@ -28,7 +28,7 @@ SecondKinds == {"none", "code", "prop2", "same", "codes2"}
 Collisions  == {"none", "exact", "case", "twoimports", "gennames", "gennames2"}
 
 AuxTargets  == {"aux1", "aux2", "aux3", "trans", "selfrec", "mutual", "auxarrayself", "diamond", "uptrans", "crosstrans", "recdep", "recmap", "auxcase", "auxempty"}
-AnonTargets == {"anonprop", "anonitems", "anonallof", "anonsibling", "anonimport", "anoncase"}
+AnonTargets == {"anonprop", "anonitems", "anonallof", "anonsibling", "anonimport", "anoncase", "anonbackup"}
 SharedPtrTargets == {"sharedparam", "sharedresp"}
 
 Str == Leaf("string")
@@ -138,6 +138,11 @@ TargetOf(t, s) ==
     \* for the two targets collide, whichever is named first
     [] t = "anoncase" -> [ref |-> <<"root", "definitions", "N_1", "properties", "N_3">>,
                        rootdefs |-> [N_1 |-> ObjP([N_3 |-> Body(s, HelperIn("root")), C_3 |-> ObjP([N_19 |-> Str])]), N_7 |-> HelperDef],
+                       aux |-> <<>>, params |-> <<>>, resps |-> <<>>]
+    \* the target has a SIBLING that points to it, and whose name extends the target's (address / addressBackup: the harness spells N_26 so)
+    [] t = "anonbackup" -> [ref |-> <<"root", "definitions", "N_1", "properties", "N_3">>,
+                       rootdefs |-> [N_1 |-> ObjP([N_3 |-> Body(s, HelperIn("root")), N_26 |-> RefTo(<<"root", "definitions", "N_1", "properties", "N_3">>), N_4 |-> Int]),
+                                     N_7 |-> HelperDef],
                        aux |-> <<>>, params |-> <<>>, resps |-> <<>>]
     [] t = "anonitems" -> [ref |-> <<"root", "definitions", "N_1", "items">>,
                        rootdefs |-> [N_1 |-> Mk([type |-> "array"], [items |-> Body(s, HelperIn("root"))]), N_7 |-> HelperDef],
@@ -272,6 +277,7 @@ ValidCombo(t, s, h, h2, c) ==
   /\ (h2 = "codes2" => c # "none" /\ h \in {"prop", "code", "nested", "opbody"})
   /\ (h \in {"refsib", "unuseddef", "additems1"} => t \in {"aux1", "local", "anonprop"} /\ h2 \in {"none", "code"})
   /\ (t = "anoncase" => s \in {"object", "allof", "nested"} /\ h \in {"prop", "code", "opbody", "items"} /\ c = "none")
+  /\ (t = "anonbackup" => s \in {"prim", "object", "arrayref"} /\ h \in {"prop", "code", "opbody", "unusedresp"} /\ c = "none")
   /\ (t = "auxempty" => s \in {"prim", "object"} /\ h \in {"prop", "code", "opbody"} /\ c = "none")
   /\ (t = "auxcase" => s \in {"prim", "object"} /\ h \in {"prop", "code", "opbody", "alias"} /\ c = "none")
   /\ (c = "gennames" => h = "nested" /\ t \in {"aux1", "diamond"})
